@@ -251,6 +251,23 @@ for _pid, _t in EXTRA3.items():
     _ref, _text, _tech = CLAIMS[_pid]
     CLAIMS[_pid] = (_ref, _text + _t, _tech)
 
+EXTRA4 = {
+    "C01": " Seeded round f: the seen-set of a scan lives for one incoming row.",
+    "C02": " Seeded round f: one seen-set per incoming row (a set that survives a row makes the answer depend on the join algorithm).",
+    "C03": " Seeded round f: an operation runs under its own prologue (request PREFIX declarations overwrite remembered ones).",
+    "C04": " Seeded round f: creating a graph that exists is a no-op; summary fields are updated by every writer of the quad indexes.",
+    "C05": " Seeded round f: rule filters are evaluated on complete bindings only.",
+    "C06": " Seeded round f: the change flags of a provenance round are sticky.",
+    "C07": " Seeded round f: the budgeted and the unbudgeted twin use the same ordering operations on node identifiers.",
+    "C08": " Seeded round f: the exactly-one constraint of an exclusive group ranges over the group's whole member list.",
+    "C09": " Seeded round f: window bounds are as wide as the clock (no numeric cast below 64 bits in the windowing code).",
+    "C10": " Seeded round f: every loaded item is recorded for eviction on every path.",
+    "C16": " Probe round: the re-tokeniser of quoted-triple source text knows the parser's comment syntax (defect fixed).",
+}
+for _pid, _t in EXTRA4.items():
+    _ref, _text, _tech = CLAIMS[_pid]
+    CLAIMS[_pid] = (_ref, _text + _t, _tech)
+
 NA = {}
 
 PENDING = "check not implemented yet in this revision (see DESIGN.md for the planned rules)"
